@@ -198,6 +198,12 @@ class Table(Vector):
 			# Create Vectors with names from dict keys
 			initial = [Vector(values, name=col_name) for col_name, values in initial.items()]
 		
+		# Ragged input is rejected rather than stored
+		if initial and len({len(vec) for vec in initial}) > 1:
+			raise SerifValueError(
+				f"All columns of a Table must have the same length; got lengths {[len(vec) for vec in initial]}"
+			)
+		
 		self._length = len(initial[0]) if initial else 0
 		
 		# Deep copy columns to enforce value semantics
